@@ -326,7 +326,7 @@ def drawing_from_recording(value):
     return [tuple(c) if isinstance(c, list) else c for c in out]
 
 
-def merge_axis_cyclic(segs):
+def merge_axis_cyclic(segs, eps=0):
     """Full cyclic merge of consecutive horizontal/horizontal or vertical/vertical line
     segments (removes collinear points and zero-area spikes on an axis); DESIGN 4.1 (f)."""
     segs = list(segs)
@@ -346,9 +346,15 @@ def merge_axis_cyclic(segs):
                 continue
             a = segs[i - 1][-1]
             b, c = s[1], t[1]
-            if (a[1] == b[1] == c[1]) or (a[0] == b[0] == c[0]):
+            if eps:
+                same_y = abs(a[1] - b[1]) <= eps and abs(b[1] - c[1]) <= eps
+                same_x = abs(a[0] - b[0]) <= eps and abs(b[0] - c[0]) <= eps
+            else:
+                same_y = a[1] == b[1] == c[1]
+                same_x = a[0] == b[0] == c[0]
+            if same_y or same_x:
                 j = (i + 1) % n
-                if c == a:
+                if c == a or (eps and abs(c[0] - a[0]) <= eps and abs(c[1] - a[1]) <= eps):
                     for k in sorted({i, j}, reverse=True):
                         del segs[k]
                 else:
